@@ -20,3 +20,7 @@ def run(rep, tier, seed, scratch):
                        "one slack row, offset row or scaling (model branch tag)")
     u = Transform()
     run_unit(rep, u, u.gen(g, tier), scratch)
+    # what the validating evaluator hands on is what the callback returned (it checks, it does not edit)
+    from ..units.small import Evaluator
+    e = Evaluator()
+    run_unit(rep, e, e.gen(g, tier), scratch)
